@@ -677,9 +677,3 @@ pub fn run(sc: &Scenario, sim: &Shared) {
     }
 }
 
-pub fn run_big(sc: &Scenario, sim: &Shared) {
-    let mut s = sim.borrow_mut();
-    for (i, _op) in sc.ops.iter().enumerate() {
-        s.out.push_str(&format!("E {} unsup bg=-\n", i));
-    }
-}
